@@ -16,6 +16,14 @@ CLAIMS = {
   text="Static lockset analysis (Eraser-style, computed statically over SSA and the VTA call graph): every mutex acquire is released on all paths (L1); every access to guarded state — memory-backend maps/skiplists/version data, version generator, uploader bookkeeping, every afero.Fs use of the fs backends — holds the owning lock in the needed mode on every call path from every entry point (L2); lock-order graph acyclic, no re-acquire of a held lock (L3); config fields written only during construction, requestID only via sync/atomic (L5); bolt handles only inside transactions (L7); stored bodies never mutated (R01.6). This is data-race/deadlock freedom w.r.t. the lock abstraction for all schedules; linearizability of histories is not decided.",
   note="trusted: guard table confirmed by reading (DESIGN.md §2.5), lock identity abstracted per (type, field), VTA over-approximation of dynamic calls. Not decided: linearizability, lost updates at S3 level, torn reads on a real directory.",
   tech="static lockset / lock-order analysis over SSA + call graph; read-only-use check of shared byte slices", ref="DESIGN.md §2.5, §4 C07"),
+ "C09": dict(
+  text="Panic-obligation discharge by static analysis over everything reachable from the router and middlewares: the compiler's own list of unproven bounds checks (-d=ssa/check_bce) is mapped to SSA and each site is discharged by structural rules (len guards, library post-conditions, induction variables, the Range() envelope) or a reviewed table with re-checked premises; nilable fields (versioned backend, version skiplists, iterator fields, bucketObject.data invariant) are dereferenced only where established non-nil on every path; unchecked type assertions only on homogeneous skiplist classes; explicit panics reviewed; request-sized allocations bounded; route switches total with an S3 error default; every handler error reaches httpError and has a status; no lock wedge under explicit unlock; middlewares answer or forward exactly once; no blocking primitive. Decides absence of these panic/hang causes for all request values, not that responses are semantically right.",
+  note="trusted: gc's prove pass for completeness of the bounds list, the library post-condition table, the reviewed discharge table (rules/c09.go), VTA reachability. Not decided: panics inside dependencies, nil results of backend calls/map lookups, memory exhaustion, non-terminating loops, post-request canary.",
+  tech="obligation enumeration (compiler BCE list, SSA scan) + guard/fact dominance, nil-ness dataflow, container-homogeneity and reviewed-table discharge", ref="DESIGN.md §2.6, §4 C09"),
+ "C11": dict(
+  text="Static analysis of the range-read safety envelope and wiring: every non-nil result of ObjectRangeRequest.Range(size) is dominated by guards entailing 0<=Start<size and 0<=Length<=size-Start with wrap-free guard arithmetic; all four backends pass the stored size, return Range()'s error unchanged, slice/seek/limit with exactly that result and report it in Object.Range; Content-Range/Content-Length are written from it between entity headers and body; every parse failure returns InvalidRange (416). Arithmetic exactness of in-range results is NOT decided.",
+  note="trusted: go/ssa, value-equivalence (load equivalence) rules. Not decided: off-by-one in computed length, whitespace variants, multi-range answer.",
+  tech="guard-fact dominance with symbolic (parametric) bounds on SSA + provenance slices for wiring", ref="DESIGN.md §4 C11"),
 }
 
 NOT_APPLICABLE = {
